@@ -1,5 +1,5 @@
 """Property -> rules.  Each entry: run(prog, tier) -> (obligations, floors, meta)."""
-from .rules import bounds, arith, index, numctor, cmp, jsonw, memo, strict, lookup, tls, imports, hashord, capi, tables, ops, registry, printf, recur, trace, fmtcover, fmttables, units, fmttokens, casts, charb
+from .rules import bounds, arith, index, numctor, cmp, jsonw, memo, strict, lookup, tls, imports, hashord, capi, tables, ops, registry, printf, recur, trace, fmtcover, fmttables, units, fmttokens, casts, charb, argswap
 
 COMMON_TRUST = [
     "rustc nightly HIR/MIR construction, trait resolution and const evaluation",
@@ -73,6 +73,8 @@ def c04(prog, tier):
         recur.run_frame(prog, crate_is(*EVAL_CRATES)),
         recur.run_views(prog),
         charb.run(prog, crate_is(*EVAL_CRATES), floor=25),
+        # two reviewed R-ARITH entries of format_code rest on the %g branch condition `exponent < precision`
+        only(printf.run(prog), ("format_code:g-threshold",)),
         only(recur.run(prog), ("in_frame:guards", "in_description_frame:guards", "ensure_sufficient_stack:guards")),
         # "after any error the same thread evaluates further programs normally"
         only(tls.run(prog), ("check_depth", "run_assertions", "<StackDepthGuard", "StateEnterGuard", "jrsonnet_evaluator::in_")),
@@ -107,7 +109,7 @@ def c04(prog, tier):
 
 def c12(prog, tier):
     pred = file_is("jrsonnet-evaluator/src/stdlib/format.rs")
-    obs, floors, an = merge(arith.run(prog, pred, floor=8), index.run(prog, pred, floor=12), printf.run(prog), casts.run(prog, pred, floor=4))
+    obs, floors, an = merge(arith.run(prog, pred, floor=8), index.run(prog, pred, floor=12), printf.run(prog), casts.run(prog, pred, floor=4), argswap.run(prog, pred, floor=20))
     meta = {
         "level": "other",
         "explanation": (
@@ -205,7 +207,8 @@ def literal_decoding(prog):
 
 def c01(prog, tier):
     # "the outcome is the same whichever of the two bundled source parsers is selected": both evaluator parsers' tables
-    obs, floors, an = merge(ops.run(prog), tables.run(prog, which=("ir", "peg")), only(strict.run(prog), ("evaluate:exhaustive", "evaluate_binary_op_special")),
+    obs, floors, an = merge(ops.run(prog), casts.run(prog, file_is("jrsonnet-evaluator/src/evaluate/mod.rs"), floor=4), argswap.run(prog, crate_is("jrsonnet_evaluator", "jrsonnet_ir_parser", "jrsonnet_ir"), floor=300),
+                            tables.run(prog, which=("ir", "peg")), only(strict.run(prog), ("evaluate:exhaustive", "evaluate_binary_op_special")),
                             only(cmp.run(prog), ("relational:", "bitwise:", "shift-negative:")))
     meta = {
         "level": "other",
@@ -351,7 +354,10 @@ def c10(prog, tier):
 
 def c11(prog, tier):
     pred = file_is("jrsonnet-stdlib/src/strings.rs", "jrsonnet-stdlib/src/encoding.rs", "jrsonnet-stdlib/src/hash.rs", "jrsonnet-stdlib/src/parse.rs", "jrsonnet-stdlib/src/misc.rs")
-    obs, floors, an = merge(registry.run(prog, C11_NAMES), extras(prog, ("parse_nat",)), arith.run(prog, pred), index.run(prog, pred))
+    # byte lengths / offsets vs code-point counts in the string builtins (the unit inference of C17, other scope)
+    obs, floors, an = merge(registry.run(prog, C11_NAMES), extras(prog, ("parse_nat",)), arith.run(prog, pred), index.run(prog, pred),
+                            units.run(prog, files=("crates/jrsonnet-stdlib/src/strings.rs",), fns=(), floor_fns=10, floor_sites=2),
+                            argswap.run(prog, pred, floor=10))
     meta = stdlib_meta("C11", "Also: digests are computed by the named digest crate over as_bytes() of the argument; encode/decode pairs use the same engine; "
                        "substr counts code points (chars().skip().take()); findSubstr does not use the non-overlapping match_indices; parse_nat accepts a digit "
                        "only if digit < BASE; no unguarded arithmetic/index trap in the string/encoding/parse modules.", an)
@@ -396,7 +402,7 @@ def c18(prog, tier):
 
 
 def c19(prog, tier):
-    obs, floors, an = merge(fmtcover.run(prog), fmttokens.run(prog), only(tables.run(prog, which=("rowan",)), ("rowan:",)))
+    obs, floors, an = merge(fmtcover.run(prog), fmttokens.run(prog), argswap.run(prog, crate_is("jrsonnet_formatter", "jrsonnet_rowan_parser"), floor=50), only(tables.run(prog, which=("rowan",)), ("rowan:",)))
     meta = {
         "level": "other",
         "explanation": (
@@ -479,7 +485,7 @@ def c17(prog, tier):
 
 
 def c15(prog, tier):
-    obs, floors, an = merge(capi.run_enter(prog), capi.run_siblings(prog), capi.run_prov(prog), capi.run_exit(prog), capi.run_visit(prog),
+    obs, floors, an = merge(argswap.run(prog, crate_is("jrsonnet_cli", "jrsonnet", "jsonnet", "jrsonnet_deps"), floor=20), capi.run_enter(prog), capi.run_siblings(prog), capi.run_prov(prog), capi.run_optsplit(prog), capi.run_exit(prog), capi.run_visit(prog),
                             capi.run_format_map(prog), only(tls.run(prog), ("jrsonnet::main_real", "jrsonnet_cli::", "jrsonnet_evaluator::stack::set_stack")),
                             only(imports.run(prog), ("cli:jpath-order",)))
     meta = {
